@@ -143,21 +143,67 @@ Theorem C17_ofs_operator_invariant_plain :
 Proof. exact ofs_operator_invariant_plain_proof. Qed.
 Print Assumptions C17_ofs_operator_invariant_plain.
 
-(* (b) swap_jw = True -- PARTIAL.  Proved: the per-pair statement C17_jw_swap_rule_conj(_all_words): the rule maps the
-   two-site product o_first (x) o_second to F (o_first (x) o_second) F^T, and C17_state_rule_is_F.  Not proved:
-     ofs_operator_invariant : after any history of exchanges with the JW rule the dense operator equals
-        G (P H P^T) G^T   with P the accumulated site permutation and G the accumulated product of F's.
-   Interface lemmas that are missing (C01 models swap_site for swap_jw = False only):
-     (i)  swap_site_jw R iszero nprim phi b2 b3 ws  :=  swap_site with the table
-              map (fun '([a1; x; y; lab; z], f) => let '(x', y', c) := phi (x, y) in ([a1; x'; y'; lab; z], c * f)) (dedup (swap_table nprim b2 b3))
-          (table_and_factor_swapped_jw; phi interns the words produced by jw_rule as new primary indices) and
-          swap_jw_sound : ... -> forall D1 i l x' y', i < length b3 ->
-              dnext (dnext D1 nb2) nb3 i (x' :: y' :: l) = sum over (x, y) with phi (x, y) = (x', y', c) of c * dnext (dnext D1 b2) b3 i (x :: y :: l)
-          (same proof as swap_sound: sweep_sound on the mapped table + a variant of swap_table_den);
-     (ii) the dense bridge  dense n prim c r col := sum over strings s in (seq 0 nprim)^n of c s * entry (map (den_word o prim) s) r col
-          with  dense (c o swap_str k) = P_k (dense c) P_k^T  (re-indexing of the string sum) and, from (i) and
-          C17_jw_swap_rule_conj_all_words, dense c_jw = F_k (dense c) F_k^T.
-   Until then sequences with the JW rule are covered by the dense oracle (every step of every sequence). *)
+(* (b) with the Jordan-Wigner rule, on top of C01's swap_jw_sound (abstract rule phi (p, q) = (p', q', c), p = operator of
+   the old second site).  One exchange on the whole operator: *)
+Theorem C17_swap_jw_mpo_sound :
+  forall (R : CRing.CRing) (iszero : CRing.car R -> bool), (forall x, iszero x = true -> x = CRing.r0 R) ->
+  forall nprim nprim' phi pre post b2 b3 nb2 nb3 ws dom,
+  (nprim <= nprim')%nat ->
+  SymMpo.swap_site_jw R iszero nprim nprim' phi b2 b3 ws = Some (nb2, nb3) ->
+  SymMpoProofs.sweep_ok R iszero ws (map (SymMpo.jw_row R phi (nprim' - nprim)) (SymMpo.dedup R iszero (SymMpo.swap_table R nprim b2 b3))) ->
+  NoDup dom -> SymMpoProofs.pairs_in R (SymMpo.swap_table R nprim b2 b3) dom ->
+  forall spre spost p' q', List.length spost = List.length post ->
+    SymMpo.coeff R (pre ++ nb2 :: nb3 :: post) (spre ++ p' :: q' :: spost)
+    = SymMpo.lsum R dom (fun pq => if SymMpoProofs.pair_eqb (fst (phi pq)) (p', q')
+                                   then CRing.rmul R (snd (phi pq)) (SymMpo.coeff R (pre ++ b2 :: b3 :: post) (spre ++ snd pq :: fst pq :: spost))
+                                   else CRing.r0 R).
+Proof. exact swap_jw_mpo_sound. Qed.
+Print Assumptions C17_swap_jw_mpo_sound.
+
+(*     ANY history of successful exchanges, each with or without the rule (constructors jh_plain / jh_jw): the final
+       coefficient function is the accumulated action T (compositions of plain_step_fun k = site permutation of the
+       string and jw_step_fun k phi dom = signed re-labelling of the two exchanged operators) on the original one *)
+Theorem C17_ofs_operator_invariant :
+  forall (R : CRing.CRing) (iszero : CRing.car R -> bool), (forall x, iszero x = true -> x = CRing.r0 R) ->
+  forall bs T bs', ofs_history R iszero bs T bs' ->
+  forall s, List.length s = List.length bs -> SymMpo.coeff R bs' s = T (SymMpo.coeff R bs) s.
+Proof. exact ofs_operator_invariant_proof. Qed.
+Print Assumptions C17_ofs_operator_invariant.
+
+(*     the GENERATED rule is such a phi (words interned as primary-operator indices: prim before, prim' after the rule
+       appended its new words) and does on every admitted pair what phi_conj_at demands ... *)
+Theorem C17_phi_jw_conj : forall prim prim' intern pq,
+  rule_word (prim (fst pq)) -> rule_word (prim (snd pq)) -> rule_asserts (prim (fst pq)) (prim (snd pq)) = true ->
+  (forall n1 n2 mn, jw_rule (prim (fst pq)) (prim (snd pq)) = Some (n1, n2, mn) -> prim' (intern n1) = n1 /\ prim' (intern n2) = n2) ->
+  phi_conj_at prim prim' (phi_jw prim intern) pq.
+Proof. exact phi_jw_conj. Qed.
+Print Assumptions C17_phi_jw_conj.
+
+(*     ... hence ONE jw_step_fun is an F conjugation: for every environment (spre, t) the two-site block
+       sum_(p',q') cnew (spre ++ p' :: q' :: t) . prim' p' (x) prim' q'  equals  F ( sum_(p,q) cold (spre ++ q :: p :: t) . prim q (x) prim p ) F^T
+       entry by entry  ((F X F^T)_ij = fsgn i . fsgn j . X_(sw4 i)(sw4 j), C17_conjF_kron_entry) *)
+Theorem C17_jw_step_block_conj : forall (prim prim' : nat -> jw_word) phi dom dom' k (c : list nat -> Z) spre t,
+  List.length spre = k -> NoDup dom' -> (forall pq, In pq dom -> In (fst (phi pq)) dom') ->
+  (forall pq, In pq dom -> phi_conj_at prim prim' phi pq) ->
+  forall i j, (i < 4)%nat -> (j < 4)%nat ->
+  sumZ (map (fun x' => jw_step_fun CRing.ZRing k phi dom c (spre ++ fst x' :: snd x' :: t)
+                       * get4 (kron (den_word (prim' (fst x'))) (den_word (prim' (snd x')))) i j) dom')
+  = fsgn i * fsgn j * sumZ (map (fun pq => c (spre ++ snd pq :: fst pq :: t)
+                                           * get4 (kron (den_word (prim (snd pq))) (den_word (prim (fst pq)))) (sw4 i) (sw4 j)) dom).
+Proof. exact jw_step_block_conj_proof. Qed.
+Print Assumptions C17_jw_step_block_conj.
+
+Theorem C17_conjF_kron_entry : forall A B i j, (i < 4)%nat -> (j < 4)%nat ->
+  get4 (conjF (kron A B)) i j = fsgn i * fsgn j * get4 (kron A B) (sw4 i) (sw4 j).
+Proof. exact conjF_kron_entry. Qed.
+Print Assumptions C17_conjF_kron_entry.
+
+(* The single remaining gap, `ofs_dense_bridge_partial` (NOT proved): the map from coefficient functions to matrices,
+     dense n prim c r col := sum over strings s in (seq 0 nprim)^n of c s * entry (map (den_word o prim) s) r col,
+   with  dense (plain_step_fun k c) = P_k (dense c) P_k^T  and  dense' (jw_step_fun k phi dom c) = F_k (dense c) F_k^T
+   (F_k = F on sites k, k+1 tensored with identities; follows from C17_jw_step_block_conj by tensoring the fixed environment
+   matrices and summing over spre, t -- a re-indexing of the finite string sum).  With it C17_ofs_operator_invariant reads
+   dense(final) = G (P H P^T) G^T.  Until then that last step is covered by the dense oracle (every step of every sequence). *)
 
 (* ---- non-vacuity *)
 Example C17_car_instance : acomm (a_op 3 1) (a_dag 3 1) [true; false; true] [true; false; true] = 1
@@ -212,4 +258,29 @@ Proof.
   - vm_compute. reflexivity.
   - apply SymMpoProofs.sweep_okb_sound; first [ (intros x Hx; apply Z.eqb_eq in Hx; exact Hx) | (vm_compute; reflexivity) ].
   - apply sh_nil.
+Qed.
+
+(* the generated rule as an abstract rule on an interned table: 0 = I, 1 = sigma_z, 2 = sigma_+, 3 = sigma_-, 4 = sigma_z sigma_+, 5 = sigma_z sigma_- *)
+Example C17_phi_instance :
+  let prim := fun k => nth k [["I"]; ["sigma_z"]; ["sigma_+"]; ["sigma_-"]; ["sigma_z"; "sigma_+"]; ["sigma_z"; "sigma_-"]]%string ["I"%string] in
+  let intern := fun w => if list_eq_dec string_dec w ["sigma_z"; "sigma_+"]%string then 4%nat
+                         else if list_eq_dec string_dec w ["sigma_z"; "sigma_-"]%string then 5%nat else 0%nat in
+  phi_jw prim intern (2, 3)%nat = (4%nat, 5%nat, (-1)%Z) /\ phi_conj_at prim prim (phi_jw prim intern) (2, 3)%nat.
+Proof. cbn zeta. split; vm_compute; reflexivity. Qed.
+
+(* histories with a JW step exist: the data of C01_ex_swap_jw (identity rule on example 1) *)
+Example C17_jw_history_instance : exists T bs',
+  ofs_history CRing.ZRing SymMpo.z_zero
+    ([] ++ [[([0; 2], 1%Z)]; [([1; 2], 3%Z); ([2; 0], 4%Z)]] :: [[([0; 0], 2%Z); ([1; 1], 1%Z)]] :: [])%nat T bs'.
+Proof.
+  eexists. eexists.
+  eapply (jh_jw CRing.ZRing SymMpo.z_zero _ _ 3 3 (fun pq => (fst pq, snd pq, 1%Z)) [(0, 2); (2, 1); (0, 0); (1, 1); (2, 0); (0, 1); (1, 2); (2, 2); (1, 0)]%nat [] [] _ _ _ _
+            [SymMpo.WG CRing.ZRing [] [[0; 3; 0]; [2; 3; 0]]; SymMpo.WG CRing.ZRing [] [[3; 0]]; SymMpo.WG CRing.ZRing [] [[0]]]%nat).
+  - apply jh_nil.
+  - apply le_n.
+  - vm_compute. reflexivity.
+  - apply SymMpoProofs.sweep_okb_sound; first [ (intros x Hx; apply Z.eqb_eq in Hx; exact Hx) | (vm_compute; reflexivity) ].
+  - repeat constructor; cbn; intuition discriminate.
+  - intros x a1 p q lab z Hin Hx. vm_compute in Hin.
+    repeat (destruct Hin as [<-|Hin]; [cbn in Hx; injection Hx as <- <- <- <- <-; cbn; tauto|]). destruct Hin.
 Qed.
